@@ -335,7 +335,10 @@ pub const SIZES: [usize; 22] = [
 
 /// An even shard size; small index = simple.
 pub fn gen_bytes(ch: &mut Chooser, max: usize) -> usize {
-    let b = if max >= 322 && ch.chance("bytes.huge", 1, 40) {
+    let b = if max >= 322 && ch.chance("bytes.giant", 1, 100) {
+        // shards of 16 KiB and more (kernels may switch strategy by shard length)
+        [16384usize, 16386, 16450, 20000, 32834, 65574][ch.pick_usize("bytes.giantidx", 6)]
+    } else if max >= 322 && ch.chance("bytes.huge", 1, 40) {
         // page-sized shards: multiples of 2048 / 4096 and their neighbours
         [2048usize, 4096, 8192, 4098, 4094, 4160, 6144][ch.pick_usize("bytes.hugeidx", 7)]
     } else if max >= 322 && ch.chance("bytes.long", 1, 12) {
@@ -375,7 +378,9 @@ pub fn gen_counts(ch: &mut Chooser, fam: Family, scale: u8) -> (usize, usize) {
         0 => (16usize, 4u32),
         1 => (96, 6),
         2 => (3000, 11),
-        _ => (24000, 14),
+        3 => (24000, 14),
+        // tiny: counts 1..=4, where different configurations share position layouts and received sets coincide
+        _ => (4, 2),
     };
     for _ in 0..8 {
         let one = |ch: &mut Chooser| {
@@ -395,7 +400,7 @@ pub fn gen_counts(ch: &mut Chooser, fam: Family, scale: u8) -> (usize, usize) {
 }
 
 pub fn gen_scale(ch: &mut Chooser) -> u8 {
-    ch.weighted("cfg.scale", &[68, 24, 7, 1]) as u8
+    ch.weighted("cfg.scale", &[58, 22, 7, 1, 12]) as u8
 }
 
 /// Cost-bounded valid configuration.
@@ -403,12 +408,17 @@ pub fn gen_config(ch: &mut Chooser, fam: Family) -> (usize, usize, usize) {
     let scale = gen_scale(ch);
     let (k, r) = gen_counts(ch, fam, scale);
     let max_b = match scale {
-        0 => 322,
+        0 | 4 => 322,
         1 => 194,
         2 => 66,
         _ => 2,
     };
     let b = gen_bytes(ch, max_b);
+    if b > 8192 && k + r > 8 {
+        // shards of 16 KiB and more only with tiny counts (cost)
+        let (k2, r2) = gen_counts(ch, fam, 4);
+        return (k2, r2, b);
+    }
     (k, r, b)
 }
 
